@@ -240,6 +240,10 @@ def run(tier):
             continue
         for dtext in res["diffs"][:3]:
             ck.violation(["override-changes-definition", n, dtext.split(":")[0]], f"supplying {n} at {date}: {dtext}", {"date": str(date), "n": n})
+    # a computed group-level column must be admissible as data: the interface's group check accepts it iff it is
+    # constant within its own group (solver obligation on the real check, shared with C20)
+    from gsv.checks import c20
+    c20.group_level_columns(ck, 3 if tier == "quick" else 4, pid="C05")
     warning_witness(ck)
     witness_roundtrips(ck, tier, rnd)
     ck.bounds = {"overridden_nodes": len(jobs), "dates": [str(d) for d in dates],
@@ -252,6 +256,9 @@ def run(tier):
 
 def replay(path):
     d = json.load(open(path))["replay"]
+    if d.get("kind") == "data":
+        from gsv.checks import c20
+        return c20.replay(path)
     if "witness" in d:
         n, bad, err = _roundtrip((datetime.date.fromisoformat(d["date"]), d["witness"]))
         print(bad, err)
